@@ -113,14 +113,14 @@ func cmdCheck(args []string) int {
 			known[f.Obligation] = f
 		}
 	}
-	cfg := SolverCfg{TimeoutMs: 10000, WorkDir: os.TempDir(), NoRace: map[string]bool{}}
+	cfg := SolverCfg{TimeoutMs: 30000, WorkDir: os.TempDir(), NoRace: map[string]bool{}}
 	for name := range known {
 		cfg.NoRace[name] = true
 		knownNames[name] = true
 		knownText[name] = known[name].Text
 	}
 	if tier == "thorough" {
-		cfg.TimeoutMs = 60000
+		cfg.TimeoutMs = 120000
 		cfg.Thorough = true
 	}
 	// generate everything (cheap), solve only what belongs to the property
@@ -288,12 +288,9 @@ func contractMentions(c *Contract, id string) bool {
 
 func parallelDischarge(sessions []*Session, want func(*Oblig) bool, cfg SolverCfg) {
 	done := make(chan struct{}, len(sessions))
-	sem := make(chan struct{}, 14)
 	for _, s := range sessions {
 		go func(s *Session) {
-			sem <- struct{}{}
 			Discharge(s, want, cfg)
-			<-sem
 			done <- struct{}{}
 		}(s)
 	}
@@ -404,6 +401,17 @@ func writeEvidence(id, tier string, seed int, obligs []*Oblig, funcs []string, g
 	ev.Coverage["solver_seconds"] = solverSeconds
 	ev.Coverage["not_discharged"] = failed
 	ev.Coverage["functions_outside_subset"] = unsup
+	var assumed []string
+	for _, sname := range sortedKeys(sessionByFunc) {
+		for _, a := range sessionByFunc[sname].Assumed {
+			if strings.Contains(a, "("+id) || id == "C05" || id == "C06" {
+				assumed = append(assumed, a)
+			}
+		}
+	}
+	if id == "C05" || id == "C06" {
+		ev.Coverage["clauses_assumed_not_proved"] = assumed
+	}
 	if g != nil && g.cs != nil {
 		ev.Coverage["contract_files"] = relFiles(g.cs.Files)
 		ev.Coverage["contract_lines"] = g.cs.Lines
